@@ -48,6 +48,24 @@ def check(run):
                 if lead:
                     gb = mkgrid(rng, s, (lead[0] * 2,) + lead[1:], g.shape[-2], g.shape[-1], **({"note": ["g", 2]} if extra else {}))
                     objs.append(("Grid", gb[::2], {"class": "Grid", "s": s, "lead": list(lead), "extra": extra, "view": "strided"}))
+    # Fortran-ordered / transposed memory layouts of the same kinds of object (a copy must hold equal data whatever the layout)
+    for cls, obj, inp0 in list(objs):
+        if inp0["view"] != "contiguous" or obj.ndim < 2:
+            continue
+        base = np.asfortranarray(np.array(obj.view(np.ndarray)))
+        meta = {k: v for k, v in obj._metadata.items()}
+        try:
+            if cls == "Modes":
+                meta.pop("ell_min", None)
+                fo = spherical.Modes(base, **meta)
+            else:
+                fo = spherical.Grid(base, **meta)
+        except Exception as e:
+            run.violation("valid-object-rejected", f"{cls}.__new__", {**inp0, "view": "fortran"}, "object", repr(e))
+            continue
+        if fo.flags.c_contiguous or not np.array_equal(fo.view(np.ndarray), obj.view(np.ndarray)):
+            continue   # the constructor copied into C order: nothing new to exercise
+        objs.append((cls, fo, {**inp0, "view": "fortran"}))
     for cls, obj, inp0 in objs:
         data0 = np.array(obj.view(np.ndarray), copy=True)
         meta0 = copy.deepcopy({k: v for k, v in obj._metadata.items() if k != "multiplication_truncator"})
